@@ -115,6 +115,28 @@ def check(repo: Repo, rep: Report) -> None:
             rep.ob("M6-scheduler-choice", cs, f"check_stopped: `{short(n_)}` is membership in the two terminal marbles", ok_,
                    f"`{short(n_)}` is not a membership test in the collection ('#', '|'): a substring test on a string also accepts the "
                    f"empty element of a group like `(a,)`, which then counts as a terminal marble")
+    # hot(): the delivery loop must not iterate the live subscriber list -- a subscriber that unsubscribes from inside its
+    # callback (AutoDetachObserver does, on a terminal notification) removes itself and makes the loop skip its neighbour
+    rep.rule("M7-hot-delivery", "hot: each parsed notification is delivered to a snapshot of the subscriber list", floor=1)
+    hot = repo.fn(M, "hot")
+    subs_lists = {a.node.func.value.id for g in hot.walk() if g.is_func for a in sites(g)
+                  if isinstance(a.node, ast.Call) and isinstance(a.node.func, ast.Attribute) and a.node.func.attr == "append"
+                  and isinstance(a.node.func.value, ast.Name) and a.node.args and u(a.node.args[0]) in g.params}
+    n_loops = 0
+    for g in hot.walk():
+        if not g.is_func:
+            continue
+        for s_ in sites(g):
+            n_ = s_.node
+            if isinstance(n_, ast.For) and any(isinstance(x, ast.Call) and isinstance(x.func, ast.Attribute) and x.func.attr == "accept" for x in ast.walk(n_)):
+                n_loops += 1
+                it = n_.iter
+                live = isinstance(it, ast.Name) and it.id in subs_lists
+                rep.ob("M7-hot-delivery", g, f"hot: `for {u(n_.target)} in {short(it, 30)}` iterates a snapshot", not live,
+                       f"hot() delivers by iterating the live subscriber list `{u(it)}`: a subscriber that is detached by the notification "
+                       f"it receives (every subscriber is, on `|` / `#`) removes itself during the loop, and the next subscriber "
+                       f"never receives that notification")
+    rep.require(n_loops >= 1 and subs_lists, "hot(): delivery loop / subscriber list")
     me = repo.fn(M, "parse.map_element")
     rets = [s for s in sites(me) if isinstance(s.node, ast.Return)]
     kinds = {}
